@@ -48,3 +48,6 @@ pub mod shims_nondet {
 // (vstd already declares core::time::Duration as an external type)
 pub uninterp spec fn nanos(d: std::time::Duration) -> int;
 //@trusted std::time::Duration: opaque value (only passed through, never computed with in the verified functions)
+
+pub assume_specification<T> [std::mem::drop] (_0: T);
+//@trusted std::mem::drop: consumes its argument, no other effect visible to the contracts
